@@ -420,9 +420,9 @@ theorem leafCheck_sound {o : Opts} {c : Cert} (h : ∀ name ∈ Gen.validateChai
     obtain ⟨e, he, hm⟩ := h7
     exact ⟨e, he, hm⟩
 
-/-- The ten check names the model knows. -/
+/-- The eleven check names the model knows. -/
 def knownChecks : List String :=
-  ["parse", "verify", "chainsEquivalent", "notAfterStart", "notAfterLimit", "acceptOnlyCA", "rejectExpired", "rejectUnexpired",
+  ["parse", "verify", "noChains", "chainsEquivalent", "notAfterStart", "notAfterLimit", "acceptOnlyCA", "rejectExpired", "rejectUnexpired",
    "rejectExtIds", "extKeyUsages"]
 
 /-- Every check the regenerated `ValidateChain` order names is one the model has. -/
@@ -430,7 +430,8 @@ theorem order_known : ∀ n ∈ Gen.validateChainOrder, n ∈ knownChecks := by 
 
 theorem leafCheck_complete {o : Opts} {c : Cert} (h : LeafOK o c) (name : String) (hk : name ∈ knownChecks) : leafCheck o c name = some none := by
   simp only [knownChecks, List.mem_cons, List.not_mem_nil, or_false] at hk
-  rcases hk with rfl | rfl | rfl | rfl | rfl | rfl | rfl | rfl | rfl | rfl
+  rcases hk with rfl | rfl | rfl | rfl | rfl | rfl | rfl | rfl | rfl | rfl | rfl
+  · rfl
   · rfl
   · rfl
   · rfl
